@@ -75,6 +75,8 @@ def run_cli(tool, argv, answers=None, keep_plots=False):
             ans = answers.pop(0) if len(answers) > 1 else answers[0]
         if PROMPT_HOOK is not None:
             PROMPT_HOOK(str(prompt), ans)
+        if ans.startswith("<no answer"):
+            raise EOFError("EOF when reading a line")
         return ans
 
     buf = io.StringIO()
